@@ -12,7 +12,7 @@ open Fdo
 
 /-- encodings of values of this type never begin with null/undefined (so `*T` can tell nil from a value) -/
 def Schema.neverNull : Schema → Bool
-  | .uint _ | .int _ | .bool | .bytes | .text | .fixed _ | .slice _ | .struct _ | .tagAny _ | .tagNum _ _ | .bstr _ | .wrap _ | .wrapBytes => true
+  | .uint _ | .int _ | .bool | .bytes | .text | .fixed _ | .slice _ | .struct _ | .tagAny _ | .tagNum _ _ | .bstr _ | .wrap _ | .wrapBytes | .cert => true
   | _ => false
 
 mutual
@@ -101,6 +101,9 @@ def Schema.inFragment : Schema → Bool
   | .wrapBytes => true
   | .ptr e => e.inFragment && e.neverNull
   | .raw => true
+  | .cert => true
+  | .timestamp => true
+  | .label => true
   | _ => false
 def Fields.inFragment : Fields → Bool
   | .nil => true
@@ -134,6 +137,9 @@ def wconf : Nat → Nat → Schema → Val → Bool
     | .wrapBytes, .bytes b => decide (b.length < maxLen)
     | .ptr _, .nilp => true
     | .ptr e, .ref x => wconf g d e x
+    | .cert, .cert der => decide (der.length < maxLen)
+    | .timestamp, .time z _ => z || decide (1 ≤ d)
+    | .label, _ => true
     | .raw, .raw b =>
       match decode (2 * b.length + 1) d b with
       | some (_, []) => true
@@ -154,7 +160,7 @@ end
 mutual
 /-- `conf g d s v`: the value `v` is one the Go type described by `s` can hold and the library's
 limits allow on the wire, when decoded with `d` container levels still available. -/
-def conf : Nat → Nat → Schema → Val → Bool
+def conf (ok : CertOracle) : Nat → Nat → Schema → Val → Bool
   | 0, _, _, _ => false
   | g+1, d, s, v =>
     match s, v with
@@ -164,30 +170,33 @@ def conf : Nat → Nat → Schema → Val → Bool
     | .bytes, .bytes b => decide (b.length < maxLen)
     | .text, .text b => decide (b.length < maxLen)
     | .fixed n, .bytes b => decide (b.length = n)
-    | .slice e, .list vs => decide (1 ≤ d ∧ vs.length < maxLen) && confList g (d - 1) e vs
-    | .struct fs, .strct vs => decide (1 ≤ d) && confFields g (d - 1) fs vs
-    | .tagAny e, .tag n x => decide (n < 18446744073709551616) && conf g maxDepth e x
-    | .tagNum n e, .tag m x => decide (m = n ∧ 1 ≤ d) && conf g maxDepth e x && wconf g (d - 1) e x
-    | .bstr e, x => conf g maxDepth e x
-    | .wrap e, x => conf g maxDepth e x
+    | .slice e, .list vs => decide (1 ≤ d ∧ vs.length < maxLen) && confList ok g (d - 1) e vs
+    | .struct fs, .strct vs => decide (1 ≤ d) && confFields ok g (d - 1) fs vs
+    | .tagAny e, .tag n x => decide (n < 18446744073709551616) && conf ok g maxDepth e x
+    | .tagNum n e, .tag m x => decide (m = n ∧ 1 ≤ d) && conf ok g maxDepth e x && wconf g (d - 1) e x
+    | .bstr e, x => conf ok g maxDepth e x
+    | .wrap e, x => conf ok g maxDepth e x
     | .wrapBytes, .bytes _ => true
     | .ptr _, .nilp => true
-    | .ptr e, .ref x => conf g d e x
+    | .ptr e, .ref x => conf ok g d e x
+    | .cert, .cert der => ok der                       -- the DER string is one x509.ParseCertificate accepts (oracle)
+    | .timestamp, .time z u => decide ((z = true → u = 0) ∧ -9223372036854775808 ≤ u ∧ u ≤ 9223372036854775807)
+    | .label, l => labelOK l
     | .raw, .raw b =>
       -- cbor.RawBytes holds exactly one well-formed item
       match decode (2 * b.length + 1) d b with
       | some (_, []) => true
       | _ => false
     | _, _ => false
-def confList : Nat → Nat → Schema → List Val → Bool
+def confList (ok : CertOracle) : Nat → Nat → Schema → List Val → Bool
   | 0, _, _, _ => false
   | _+1, _, _, [] => true
-  | g+1, d, e, v :: vs => conf g d e v && confList g d e vs
-def confFields : Nat → Nat → Fields → List Val → Bool
+  | g+1, d, e, v :: vs => conf ok g d e v && confList ok g d e vs
+def confFields (ok : CertOracle) : Nat → Nat → Fields → List Val → Bool
   | 0, _, _, _ => false
   | _+1, _, .nil, [] => true
-  | g+1, d, .cons s _ fs, v :: vs => conf g d s v && confFields g d fs vs
-  | g+1, d, .hdr fs, .hdr pm um :: vs => hdrMapOK pm && hdrMapOK um && confFields g d fs vs
+  | g+1, d, .cons s _ fs, v :: vs => conf ok g d s v && confFields ok g d fs vs
+  | g+1, d, .hdr fs, .hdr pm um :: vs => hdrMapOK pm && hdrMapOK um && confFields ok g d fs vs
   | _, _, _, _ => false
 end
 
